@@ -11,6 +11,8 @@ From Verif.Base Require Import Prelude Json Envelope.
 From Verif.Spec Require Import C02.
 From Verif.Model Require Import Envelope.
 From Verif.Proofs Require Import Envelope.
+From Verif.Proofs Require EnvelopeKind.
+From Verif.Gen Require EnvelopeKindGen.
 Open Scope Z_scope.
 
 (** The extracted checkers the harness applies to the implementation's output
@@ -160,3 +162,25 @@ Proof.
   - reflexivity.
   - reflexivity.
 Qed.
+
+(** The model's classification of a unified message ([kind_of], hand-written) is
+    the one induced by the library's own predicates is_request /
+    is_notification / is_error_response / is_response AS THEY STAND IN THE
+    SOURCE: Gen/EnvelopeKindGen.v is regenerated from json_rpc_message.py on
+    every run, so an edit to one of the four predicates breaks this proof. *)
+Theorem C02_kind_of_is_the_sources_predicates : forall e,
+  m_cls e = CUnified -> kind_of e = EnvelopeKind.kind_by_predicates e.
+Proof. exact EnvelopeKind.kind_of_unified_is_generated. Qed.
+Print Assumptions C02_kind_of_is_the_sources_predicates.
+
+(** ... and, for the predicates as they stand: a message carrying an error and no
+    method is an error response whatever its id (null included), an error
+    response is a response, request / notification / response exclude one another. *)
+Theorem C02_source_predicates_consistent : forall hm hi hr he,
+  EnvelopeKindGen.is_error_response false hi hr true = true
+  /\ (EnvelopeKindGen.is_request hm hi hr he = true -> EnvelopeKindGen.is_notification hm hi hr he = false
+                                                      /\ EnvelopeKindGen.is_response hm hi hr he = false)
+  /\ (EnvelopeKindGen.is_notification hm hi hr he = true -> EnvelopeKindGen.is_response hm hi hr he = false)
+  /\ (EnvelopeKindGen.is_error_response hm hi hr he = true -> EnvelopeKindGen.is_response hm hi hr he = true).
+Proof. exact EnvelopeKind.source_predicates_consistent. Qed.
+Print Assumptions C02_source_predicates_consistent.
